@@ -154,7 +154,12 @@ func (e *Error) getLine(source []byte) (string, bool) {
 	for s.Scan() {
 		l++
 		if l == e.Line {
-			return s.Text(), true
+			t := s.Text()
+			if l == 1 {
+				// YAML parser does not count byte order mark at the start of file as a column
+				t = strings.TrimPrefix(t, "\uFEFF")
+			}
+			return t, true
 		}
 	}
 	return "", false
